@@ -1082,6 +1082,60 @@ class Body:
 
     def bool_edges(self, call):
         """(true_block, false_block, switch_block) of a switch directly on the bool result of `call`."""
+        for e in self.bool_edges_all(call):
+            return e
+        return None
+
+    def _narrow(self, op, hops=6):
+        """Follow copies and projections of freshly built tuples/aggregates: `(a, b).1` is `b`."""
+        while hops > 0:
+            hops -= 1
+            p = op_place(op)
+            if p is None:
+                return op
+            d = self.single_def(p[0])
+            if d is None or d[0] != "assign":
+                return op
+            rv = d[3]
+            elems = [x for x in p[1] if x != "*"]
+            if rv[0] == "use" and not elems:
+                op = rv[1]
+                continue
+            if rv[0] == "agg" and len(elems) == 1 and isinstance(elems[0], list) and elems[0][0] == "f" and isinstance(elems[0][1], int) and elems[0][1] < len(rv[2]):
+                op = rv[2][elems[0][1]]
+                continue
+            return op
+        return op
+
+    def bool_switches_from(self, call):
+        """Every (true_block, false_block, switch_block) of a two-way switch whose scrutinee derives (through copies,
+        tuple components and `!`) from the bool returned by `call`."""
+        out = []
+        for b in range(self.n):
+            if self.is_cleanup(b):
+                continue
+            t = self.term(b)
+            if t["k"] != "switch" or op_place(t["discr"]) is None:
+                continue
+            src = self.sources(self._narrow(t["discr"]))
+            if not any(x[0] == "call" and x[1] is call for x in src):
+                continue
+            if any(x[0] == "call" and x[1] is not call for x in src) or any(x[0] == "bin" for x in src):
+                continue
+            arms = {int(v) if isinstance(v, str) else v: tb for v, tb in t["arms"]}
+            if set(arms.keys()) == {0}:
+                tr, fa = t["otherwise"], arms[0]
+            elif set(arms.keys()) == {1}:
+                tr, fa = arms[1], t["otherwise"]
+            else:
+                continue
+            if sum(1 for x in src if x[0] == "un" and x[1] == "Not") % 2:
+                tr, fa = fa, tr
+            out.append((tr, fa, b))
+        return out
+
+    def bool_edges_all(self, call):
+        """Every (true_block, false_block, switch_block) of a switch on the bool result of `call`."""
         for b in range(self.n):
             if self.is_cleanup(b):
                 continue
@@ -1110,7 +1164,7 @@ class Body:
                             break
                         if neg:
                             tr, fa = fa, tr
-                        return tr, fa, b
+                        yield tr, fa, b
                     break
                 rv = d[3]
                 if rv[0] == "use" and op_place(rv[1]) is not None and not op_place(rv[1])[1]:
@@ -1121,7 +1175,6 @@ class Body:
                     loc = op_place(rv[2])[0]
                     continue
                 break
-        return None
 
     def option_edges_on_field(self, adt_suffix, field):
         """Switches on the discriminant of an Option stored in (or borrowed from) the given field:
